@@ -1,0 +1,88 @@
+//! Verification hook (only with `--cfg avt_verif`).
+
+use super::{BufferType, CursorKeysMode, SavedCtx, Terminal};
+use crate::charset::Charset;
+use std::fmt::Write;
+
+fn ctx(c: &SavedCtx, out: &mut String) {
+    let _ = write!(out, " {} {} ", c.cursor_col, c.cursor_row);
+    crate::verif::pen(&c.pen, out);
+    let _ = write!(out, " {} {}", c.origin_mode as u8, c.auto_wrap_mode as u8);
+}
+
+fn charset(c: &Charset) -> u8 {
+    match c {
+        Charset::Ascii => 0,
+        Charset::Drawing => 1,
+    }
+}
+
+impl Terminal {
+    pub(crate) fn verif_state(&self, out: &mut String) {
+        let _ = write!(
+            out,
+            "T {} {} {} ",
+            self.cols,
+            self.rows,
+            (self.active_buffer_type == BufferType::Alternate) as u8
+        );
+
+        match self.scrollback_limit {
+            None => out.push('-'),
+            Some(l) => {
+                let _ = write!(out, "{}", l);
+            }
+        }
+
+        let _ = write!(
+            out,
+            " {} {} {} ",
+            self.cursor.col, self.cursor.row, self.cursor.visible as u8
+        );
+
+        crate::verif::pen(&self.pen, out);
+
+        let _ = write!(
+            out,
+            " {} {} {} {} {} {} {} {} {} {} {} {}",
+            charset(&self.charsets[0]),
+            charset(&self.charsets[1]),
+            self.active_charset,
+            self.insert_mode as u8,
+            self.origin_mode as u8,
+            self.auto_wrap_mode as u8,
+            self.new_line_mode as u8,
+            (self.cursor_keys_mode == CursorKeysMode::Application) as u8,
+            self.pending_wrap as u8,
+            self.top_margin,
+            self.bottom_margin,
+            self.xtwinops as u8
+        );
+
+        ctx(&self.saved_ctx, out);
+        ctx(&self.alternate_saved_ctx, out);
+
+        let tabs: Vec<usize> = (&self.tabs).into_iter().copied().collect();
+        let _ = write!(out, " TABS {}", tabs.len());
+
+        for t in tabs {
+            let _ = write!(out, " {}", t);
+        }
+
+        let dirty = format!("{:?}", self.dirty_lines);
+        let bits: String = dirty
+            .split(|c: char| !c.is_alphabetic())
+            .filter_map(|w| match w {
+                "true" => Some('1'),
+                "false" => Some('0'),
+                _ => None,
+            })
+            .collect();
+
+        let _ = write!(out, " DIRTY {} ", bits.len());
+        out.push_str(if bits.is_empty() { "-" } else { &bits });
+
+        self.buffer.verif_state(out);
+        self.other_buffer.verif_state(out);
+    }
+}
